@@ -11,6 +11,7 @@ package main
 
 import (
 	"bytes"
+	"encoding/binary"
 	"errors"
 	"fmt"
 	"math"
@@ -152,6 +153,7 @@ const (
 	opRestart
 	opFork
 	opDrop
+	opSetRow
 )
 
 type FG struct{ Id, Pre, Parent uint64 }
@@ -181,6 +183,8 @@ func (o Op) String() string {
 		return fmt.Sprintf("fork-switch(ancestor-height=%d,[%s])", o.H, strings.Join(p, ""))
 	case opDrop:
 		return fmt.Sprintf("lose-sqlite-rows(%v)", o.Ids)
+	case opSetRow:
+		return fmt.Sprintf("wrong-sqlite-row(hash=%d,groupheight=%d)", o.Id, o.H)
 	}
 	if o.Cold {
 		return "restart(cold)"
@@ -188,7 +192,7 @@ func (o Op) String() string {
 	return "restart(warm)"
 }
 func (o Op) kind() string {
-	return []string{"add", "remove-last", "remove-from-ancestor", "restart", "fork-switch", "lose-sqlite-rows"}[o.K]
+	return []string{"add", "remove-last", "remove-from-ancestor", "restart", "fork-switch", "lose-sqlite-rows", "wrong-sqlite-row"}[o.K]
 }
 func (o Op) coq() string {
 	switch o.K {
@@ -210,6 +214,8 @@ func (o Op) coq() string {
 			p[i] = fmt.Sprint(x)
 		}
 		return fmt.Sprintf("HDrop [%s]", strings.Join(p, ";"))
+	case opSetRow:
+		return fmt.Sprintf("HSetRow %d %d", o.Id, o.H)
 	}
 	return "HRestart"
 }
@@ -406,6 +412,12 @@ func apply(o Op) (ret uint64) {
 			}
 		}
 		return 0
+	case opSetRow:
+		// replace INTO groupIndex behind the chain's back: a wrong height for a listed group or a row for a hash that is not on the chain
+		if err := mysql.InsertGroup(&types.Group{Id: idBytes(o.Id), GroupHeight: o.H, Header: &types.GroupHeader{WorkHeight: 1, DismissHeight: 5}}); err != nil {
+			panic(err)
+		}
+		return 0
 	}
 	reinit(o.Cold)
 	return 0
@@ -416,6 +428,7 @@ func apply(o Op) (ret uint64) {
 type shadow struct {
 	l         []G
 	unsettled bool
+	corrupt   bool // a wrong/extra sqlite row was written: the sqlite clauses are no longer evaluated (the model comparison still is)
 }
 
 func (s *shadow) add(id, pre, parent uint64) uint64 {
@@ -461,6 +474,9 @@ func (s *shadow) step(o Op) (ret uint64) {
 				s.unsettled = true
 			}
 		}
+		return 0
+	case opSetRow:
+		s.corrupt = true
 		return 0
 	case opRestart:
 		s.unsettled = false
@@ -587,19 +603,19 @@ func runSeq(res *hx.Result, U int, ops []Op) (sr seqResult) {
 				viol(i, "sync-groups", fmt.Sprintf("GetSyncGroupsById(%d)=%s, the groups after it are %v", e.Id, coqGs(got), ids(wantSync)))
 			}
 			// sqlite: a row is never wrong; it is never missing unless rows were lost and no restart followed
-			if ob.SqH[e.Id-1] != int64(j) && !(sh.unsettled && ob.SqH[e.Id-1] == -1) {
+			if !sh.corrupt && ob.SqH[e.Id-1] != int64(j) && !(sh.unsettled && ob.SqH[e.Id-1] == -1) {
 				viol(i, "sqlite-index", fmt.Sprintf("sqlite groupheight of %d is %d, list position %d", e.Id, ob.SqH[e.Id-1], j))
 			}
 		}
 		for id := 1; id <= U; id++ {
-			if !sh.has(uint64(id)) && ob.SqH[id-1] != -1 {
+			if !sh.corrupt && !sh.has(uint64(id)) && ob.SqH[id-1] != -1 {
 				viol(i, "sqlite-index", fmt.Sprintf("sqlite has a row (groupheight %d) for %d, which is not on the list", ob.SqH[id-1], id))
 			}
 		}
-		if ob.SqN > n || (ob.SqN != n && !sh.unsettled) {
+		if !sh.corrupt && (ob.SqN > n || (ob.SqN != n && !sh.unsettled)) {
 			viol(i, "sqlite-index", fmt.Sprintf("sqlite has %d rows, the list has %d groups", ob.SqN, n))
 		}
-		if o.K == opRestart && !ob.sameState(prev, !wasUnsettledBefore) {
+		if o.K == opRestart && !ob.sameState(prev, !wasUnsettledBefore && !sh.corrupt) {
 			viol(i, "restart-changes-observables", "before: "+prev.coq()+" after: "+ob.coq())
 		}
 		prev = ob
@@ -620,7 +636,7 @@ func ids(l []G) []uint64 {
 // from the last group ends at genesis, Count() is its length, the height index is that list and empty
 // from Count() on, every listed group is found by id with its position, the sync answers are the
 // following groups, sqlite has exactly the listed groups.
-func intrinsic(U int, ob *Obs) []string {
+func intrinsic(U int, ob *Obs, lossy bool) []string {
 	var bad []string
 	n := len(ob.Walk)
 	L := make([]uint64, n) // genesis first
@@ -678,14 +694,14 @@ func intrinsic(U int, ob *Obs) []string {
 			if !ok {
 				bad = append(bad, fmt.Sprintf("GetSyncGroupsById(%d)=%s, the groups after it are %v", id, coqGs(got), L[i+1:lim]))
 			}
-			if ob.SqH[id-1] != int64(i) {
+			if ob.SqH[id-1] != int64(i) && !(lossy && ob.SqH[id-1] == -1) {
 				bad = append(bad, fmt.Sprintf("sqlite groupheight of %d is %d, list position %d", id, ob.SqH[id-1], i))
 			}
 		} else if ob.SqH[id-1] != -1 {
 			bad = append(bad, fmt.Sprintf("sqlite has a row for %d, which is not on the predecessor list", id))
 		}
 	}
-	if ob.SqN != uint64(n) {
+	if ob.SqN > uint64(n) || (ob.SqN != uint64(n) && !lossy) {
 		bad = append(bad, fmt.Sprintf("sqlite has %d rows, the predecessor list has %d groups", ob.SqN, n))
 	}
 	return bad
@@ -820,7 +836,11 @@ func runSched(res *hx.Result, sc *hx.Cases, U int, name string, prefix []Op, x F
 		return
 	}
 	ob := observe(U, xr.ret)
-	bad := intrinsic(U, ob)
+	lossy := false
+	for _, o := range comp {
+		lossy = lossy || o.K == opDrop
+	}
+	bad := intrinsic(U, ob, lossy)
 	for _, b := range bad {
 		viol("addgroup-check-then-act", fmt.Sprintf("after both goroutines returned (AddGroup(x) returned code %d, competing calls %v): %s", xr.ret, crets, b))
 	}
@@ -931,8 +951,15 @@ func genSched(r *hx.Rng, U int) (prefix []Op, x FG, comp []Op) {
 			} else {
 				o = Op{K: opAdd, Id: g.Id, Pre: g.Pre, Parent: g.Parent}
 			}
-		case c < 58:
+		case c < 56:
 			o = Op{K: opRemoveLast}
+		case c < 62: // sqlite rows lost while the AddGroup is in flight
+			o = Op{K: opDrop}
+			for id := uint64(1); id <= uint64(U); id++ {
+				if r.Intn(2) == 0 {
+					o.Ids = append(o.Ids, id)
+				}
+			}
 		case c < 70:
 			o = Op{K: opRemoveFrom, H: uint64(r.Intn(len(sh.l) + 1))}
 		default:
@@ -951,6 +978,145 @@ func genSched(r *hx.Rng, U int) (prefix []Op, x FG, comp []Op) {
 		comp = append(comp, o)
 	}
 	return
+}
+
+// ---- a reader that does not take the lock: Count() and LastGroup() return the fields unlocked ----
+// parkDB parks the caller of Put("gcount"): in save that is after count++ and before lastGroup = group,
+// in remove after count-- and before lastGroup = preGroup.
+type parkDB struct {
+	db.Database
+	mu               sync.Mutex
+	armed            bool
+	entered, release chan struct{}
+}
+
+func (p *parkDB) Put(k, v []byte) error {
+	p.mu.Lock()
+	hit := p.armed && string(k) == "gcount"
+	if hit {
+		p.armed = false
+	}
+	p.mu.Unlock()
+	if hit {
+		close(p.entered)
+		<-p.release
+	}
+	return p.Database.Put(k, v)
+}
+
+func runLF(res *hx.Result, lc *hx.Cases, U int, prefix []Op, isAdd bool, x FG) {
+	names := make([]string, len(prefix))
+	pc := make([]string, len(prefix))
+	for i, o := range prefix {
+		names[i], pc[i] = o.String(), o.coq()
+	}
+	call := "remove(lastGroup)"
+	if isAdd {
+		call = fmt.Sprintf("AddGroup(%d,pre=%d,parent=%d)", x.Id, x.Pre, x.Parent)
+	}
+	desc := map[string]interface{}{"genesis": "id 1, PreGroup nil", "sequential-prefix": names,
+		"schedule": []string{"G1 " + call + " runs inside the write lock up to Put(\"gcount\") and is held there", "G2 reads Count() and LastGroup() (neither takes the lock)", "G1 released"}}
+	freshStore(U)
+	for _, o := range prefix {
+		if _, pan := applySafe(o); pan != nil {
+			res.Violate("C19/lockfree-reader:panic", fmt.Sprint("panic in the sequential prefix: ", pan), desc)
+			return
+		}
+	}
+	pd := &parkDB{armed: true, entered: make(chan struct{}), release: make(chan struct{})}
+	orig := core.VerifGCWrapStore(func(d db.Database) db.Database { pd.Database = d; return pd })
+	defer core.VerifGCWrapStore(func(db.Database) db.Database { return orig })
+	done := make(chan interface{}, 1)
+	go func() {
+		var o Op
+		if isAdd {
+			o = Op{K: opAdd, Id: x.Id, Pre: x.Pre, Parent: x.Parent}
+		} else {
+			o = Op{K: opRemoveLast}
+		}
+		_, pan := applySafe(o)
+		done <- pan
+	}()
+	kind := "remove"
+	if isAdd {
+		kind = "save"
+	}
+	select {
+	case <-pd.entered:
+	case pan := <-done:
+		if pan != nil {
+			res.Violate("C19/lockfree-reader:panic", fmt.Sprint("panic: ", pan), desc)
+		}
+		res.Count("lockfree:"+kind+":call-refused-before-the-writes", "lf;"+strings.Join(names, ";")+"|"+call, false)
+		return
+	case <-time.After(schedStuck):
+		res.Violate("C19/lockfree-reader:stuck", call+" neither reached Put(gcount) nor returned", desc)
+		close(pd.release)
+		return
+	}
+	gc := core.GetGroupChain()
+	cnt, lg := gc.Count(), proj(gc.LastGroup())
+	close(pd.release)
+	if pan := <-done; pan != nil {
+		res.Violate("C19/lockfree-reader:panic", fmt.Sprint("panic: ", pan), desc)
+		return
+	}
+	consistent := lg != nil && cnt == lg.H+1
+	res.Count(fmt.Sprintf("lockfree:%s:pair-consistent=%v", kind, consistent), "lf;"+strings.Join(names, ";")+"|"+call, true)
+	if !consistent {
+		res.Violate("C19/lockfree-reader:count-vs-lastgroup:"+kind, fmt.Sprintf("while %s is between its two assignments a reader sees Count()=%d and LastGroup()=%s: no state between operations has this pair (Count() = LastGroup().GroupHeight+1 there); the predecessor walk from that LastGroup has %d groups", call, cnt, lg.coq(), lg.H+1), desc)
+	}
+	lc.Add(fmt.Sprintf("([%s], %s, (%d,%d,%d), %d, %s)", strings.Join(pc, ";"), hx.CoqBool(isAdd), x.Id, x.Pre, x.Parent, cnt, lg.coq()),
+		map[string]interface{}{"prefix": names, "call": call, "count_seen": cnt, "last_seen": lg})
+}
+
+// ---- key-space collisions: a group whose id is a key of another kind (8-byte height key, "gcurrent",
+// "gcount"); only reachable with a CheckGroup that accepts such an id (the real one demands
+// g.Id = NewIDFromPubkey(gpk).Serialize(), 32 bytes), so nothing here is reported as a violation: the
+// observation is compared with the byte-level model (coq/C19/KeyModel.v, check_keys) ----
+func coqBytes(b []byte) string {
+	p := make([]string, len(b))
+	for i, x := range b {
+		p[i] = fmt.Sprint(x)
+	}
+	return "[" + strings.Join(p, ";") + "]"
+}
+
+func runKeys(res *hx.Result, kc *hx.Cases, name string, id []byte) {
+	freshStore(3)
+	gc := core.GetGroupChain()
+	g0 := idBytes(1)
+	g := &types.Group{Id: id, PubKey: []byte{9}, Members: [][]byte{{1}},
+		Header: &types.GroupHeader{PreGroup: g0, Parent: g0, CreateHeight: 10, Extends: "x"}}
+	var ret uint64
+	var pan interface{}
+	func() {
+		defer func() { pan = recover() }()
+		err := gc.AddGroup(g)
+		switch {
+		case err == nil:
+			ret = 0
+		case errors.Is(err, common.ErrGroupAlreadyExist):
+			ret = 1
+		case strings.HasPrefix(err.Error(), "parent is not existed"):
+			ret = 2
+		case strings.HasPrefix(err.Error(), "pre not equal"):
+			ret = 3
+		default:
+			ret = 9
+		}
+	}()
+	if pan != nil {
+		res.Violate("C19/keyspace:panic:"+name, fmt.Sprint("AddGroup panics: ", pan), map[string]interface{}{"id": fmt.Sprintf("%x", id)})
+		return
+	}
+	byId := gc.GetGroupById(id) != nil
+	byH := gc.GetGroupByHeight(1) != nil
+	lastIs := bytes.Equal(gc.LastGroup().Id, id)
+	mysql.DeleteGroup(id) // freshStore only knows the rows of the numbered ids
+	res.Count(fmt.Sprintf("keyspace:%s:ret=%d,count=%d,by-id=%v,height1=%v", name, ret, gc.Count(), byId, byH), "keyspace;"+name, true)
+	kc.Add(fmt.Sprintf("(%s, %s, %d, %d, %s, %s, %s)", coqBytes(g0), coqBytes(id), ret, gc.Count(), hx.CoqBool(byId), hx.CoqBool(byH), hx.CoqBool(lastIs)),
+		map[string]interface{}{"scenario": name, "id": fmt.Sprintf("%x", id), "result": ret, "count": gc.Count(), "found_by_id": byId, "height_1_found": byH})
 }
 
 // ---- generators ----
@@ -1036,7 +1202,11 @@ func genSeq(r *hx.Rng, U int) []Op {
 				cand = append(cand, g.Id)
 				pre = g.Id
 			}
-		case x < 90:
+		case x < 86:
+			o.K = opSetRow
+			o.Id = uint64(1 + r.Intn(U))
+			o.H = uint64(r.Intn(U + 1))
+		case x < 91:
 			o.K = opDrop
 			if r.Intn(3) == 0 { // the whole index
 				for id := uint64(1); id <= uint64(U); id++ {
@@ -1113,6 +1283,12 @@ func main() {
 		}
 		if sr.healed {
 			class += "+index-rebuilt"
+		}
+		for _, o := range ops {
+			if o.K == opSetRow {
+				class += "+wrong-row"
+				break
+			}
 		}
 		res.Count(class, strings.Join(names, ";"), (sr.removed && (sr.readd || sr.rsAfter)) || sr.healed)
 		for _, c := range sr.rets {
@@ -1198,10 +1374,33 @@ func main() {
 		runSched(res, sc, 7, "random", p, x, c)
 	}
 	res.Note(fmt.Sprintf("gated schedules: %d fixed + %d seeded random scenarios; consensusHelper.CheckGroup holds one AddGroup (after Has(id), before the write lock) while a second goroutine runs competing AddGroup / remove(last) / removeFromCommonAncestor / fork-switch calls to completion, then releases it; a competing call that does not return within %v counts as waiting for the parked call (then the parked call is released first); the property is evaluated on the observation taken after both returned, and the observation is compared with the model's fine-grained semantics (crun) under the same schedule. In every scenario an id determines the PreGroup of the groups carrying it (what CheckGroup guarantees on a real node)", len(fixed), nSched, schedGrace))
+	// readers without the lock
+	lc := hx.NewCasesNamed(a.Out, "lf", "From V.C19 Require Import Model Harness.\nOpen Scope N_scope.",
+		"list hop * bool * (N * N * N) * N * option group", "check_lf", 100)
+	runLF(res, lc, 7, nil, true, FG{2, 1, 1})
+	runLF(res, lc, 7, []Op{add(2, 1, 1), add(3, 2, 1)}, true, FG{4, 3, 2})
+	runLF(res, lc, 7, []Op{add(2, 1, 1)}, false, FG{})
+	runLF(res, lc, 7, []Op{add(2, 1, 1), add(3, 2, 1), add(4, 3, 1)}, false, FG{})
+	runLF(res, lc, 7, []Op{add(2, 1, 1)}, true, FG{3, 1, 1}) // refused (PreGroup is not the last group): nothing is written
+	res.Note("lock-free readers: save / remove are parked at Put(\"gcount\") (between count++/count-- and the assignment of lastGroup) through a store wrapper; Count() and LastGroup() are read at that moment and compared with the model's save_mid / remove_mid")
+	// key-space collisions
+	kc := hx.NewCasesNamed(a.Out, "keys", "From V.C19 Require Import KeyModel Harness.\nOpen Scope N_scope.",
+		"list N * list N * N * N * bool * bool * bool", "check_keys", 100)
+	be8 := func(h uint64) []byte { b := make([]byte, 8); binary.BigEndian.PutUint64(b, h); return b }
+	runKeys(res, kc, "id=height-key-of-the-next-group", be8(1))
+	runKeys(res, kc, "id=occupied-height-key", be8(0))
+	runKeys(res, kc, "id=free-height-key-above", be8(5))
+	runKeys(res, kc, "id=gcount", []byte("gcount"))
+	runKeys(res, kc, "id=gcurrent", []byte("gcurrent"))
+	runKeys(res, kc, "id=32-bytes", idBytes(2))
+	runKeys(res, kc, "id=8-bytes-not-a-used-key", []byte("abcdefgh"))
+	res.Note("key-space scenarios: AddGroup of a group whose id is an 8-byte height key / \"gcurrent\" / \"gcount\" on a fresh store with the accepting CheckGroup stub, compared with the byte-level key model (check_keys); not violations: the real CheckGroup and verifyGroup demand the 32-byte id derived from the group public key before anything is written")
 	core.VerifGCShutdown()
 	mysql.CloseMysql()
 	cs.Close()
 	sc.Close()
-	res.ModelCases = cs.Total() + sc.Total()
+	kc.Close()
+	lc.Close()
+	res.ModelCases = cs.Total() + sc.Total() + kc.Total() + lc.Total()
 	res.Write(a.Out)
 }
